@@ -586,11 +586,18 @@ impl Xot {
     /// You can use this function just before serializing the tree to XML
     /// using [`Xot::write`] or [`Xot::to_string`].
     pub fn create_missing_prefixes(&mut self, node: Node) -> Result<(), Error> {
-        let node = if self.is_document(node) {
-            self.document_element(node).unwrap()
-        } else {
-            node
-        };
+        if self.is_document(node) {
+            // a document or fragment: every top-level element is repaired
+            // (there may be several in a fragment, or none at all)
+            let elements = self
+                .children(node)
+                .filter(|child| self.is_element(*child))
+                .collect::<Vec<_>>();
+            for element in elements {
+                self.create_missing_prefixes(element)?;
+            }
+            return Ok(());
+        }
         if !self.is_element(node) {
             return Err(Error::NotElement(node));
         };
